@@ -68,6 +68,7 @@ import "go.lstv.dev/util/internal"
 //@       ==> int(result) == (dord(d)-dord(e))*86400000000000
 
 //@ func (*Date).Scan
+//@   ensures [C17.input] heapSame()
 //@   opt props C07,C17
 //@   ensures [C17.recv] err != nil ==> *d == old(*d)
 //@   assigns *d
@@ -108,6 +109,7 @@ import "go.lstv.dev/util/internal"
 //@ pure func D(w bytes) int = dec(w, len(w)-2, 2)
 
 //@ func DefaultParser
+//@   ensures [C17.input] heapSame()
 //@   ensures [C09.accept] err == nil <==> len(input) > 0 && withinLimit(len(input)) && dateText(input) && realDay(Y(input), M(input), D(input))
 //@       && !(!ext(input) && r&RuleDisableBasic != 0)
 //@   ensures [C09.value C01.parse] err == nil ==> yr(date) == Y(input) && mo(date) == M(input) && dy(date) == D(input)
@@ -148,6 +150,7 @@ import "go.lstv.dev/util/internal"
 //@   ensures fresh(r0)
 
 //@ func (*Date).UnmarshalText
+//@   ensures [C17.input] heapSame()
 //@   ensures [C17.recv] err != nil ==> *d == old(*d)
 //@   ensures [C09.accept] err == nil <==> len(data) > 0 && withinLimit(len(data)) && dateText(data) && realDay(Y(data), M(data), D(data))
 //@   ensures [C09.value C01.parse] err == nil ==> yr(*d) == Y(data) && mo(*d) == M(data) && dy(*d) == D(data) && wf(*d)
@@ -208,6 +211,7 @@ import "go.lstv.dev/util/internal"
 //@   ensures fresh(r0)
 
 //@ func (*Date).UnmarshalBinary
+//@   ensures [C17.input] heapSame()
 //@   mode bv
 //@   ensures [C11.class] len(data) == 0 ==> errIs(err, ErrInvalidLength)
 //@   ensures [C11.class] len(data) > 0 && data[0] != 1 ==> errIs(err, ErrUnsupportedVersion)
